@@ -119,6 +119,27 @@ func mkFilter(c Cfg) *encrypt.Filter {
 	return f
 }
 
+func collectInts(v *V, out *[]string) {
+	if v == nil {
+		return
+	}
+	if v.K == "int" {
+		*out = append(*out, fmt.Sprintf("%s", int(v.I)))
+	}
+	for _, f := range v.Fields {
+		collectInts(f.V, out)
+	}
+	if v.K == "ptr" {
+		collectInts(v.Elem, out)
+	}
+	for _, e := range v.Elems {
+		collectInts(e, out)
+	}
+	for _, e := range v.Vals {
+		collectInts(e, out)
+	}
+}
+
 func collectCanaries(v *V, m map[string]int) {
 	if v == nil {
 		return
@@ -216,6 +237,7 @@ func execCase(c Case) (res result) {
 		pv = &Rot{W: newAead("k2"), Salt: []byte("rs"), Info: []byte("ri")}
 	default:
 		collectCanaries(c.V, cl.canaries)
+		collectInts(c.V, &cl.extra)
 		pv = valueOf(c.V).Interface()
 	}
 	cl.keys = []keyCand{{1, keyBytes("k1")}}
